@@ -370,7 +370,8 @@ impl FileSpec {
         crate::verif_hooks::point("read_dir", Some(&self.directory), None).ok();
         let fixed_name_part = self.fixed_name_part();
         let mut log_files = std::fs::read_dir(&self.directory)
-            .unwrap(/*ignore errors from reading the directory*/)
+            .into_iter(/*ignore errors from reading the directory, e.g. if it does not exist*/)
+            .flatten()
             .flatten(/*ignore errors from reading entries in the directory*/)
             .filter(|entry| entry.path().is_file())
             .map(|de| de.path())
